@@ -510,10 +510,151 @@ pub mod kb5q {
     }
 }
 
+/// Hiding (salted) arity-2 MMCS over KoalaBear: native `MerkleTreeHidingMmcs` (leaf = `[row | salt]`
+/// per matrix) versus `verify_batch_circuit` with salt targets. Extra fault kind: one salt element.
+pub mod kb4salt {
+    use p3_circuit::CircuitBuilder;
+    use p3_circuit::ops::{generate_poseidon2_trace, generate_recompose_trace, perm_private_data};
+    use p3_commit::{BatchOpeningRef, Mmcs};
+    use p3_field::{BasedVectorSpace, PrimeCharacteristicRing};
+    use p3_matrix::Matrix;
+    use p3_matrix::dense::RowMajorMatrix;
+    use p3_recursion::pcs::verify_batch_circuit;
+    use p3_test_utils::koala_bear_params::*;
+    use p3_util::log2_ceil_usize;
+
+    use super::{CaseOut, MFault, MmcsShape};
+    use crate::core::pool::observe;
+
+    type CF = Challenge;
+    const SALT: usize = 4;
+    type HMmcs = p3_merkle_tree::MerkleTreeHidingMmcs<<F as p3_field::Field>::Packing, <F as p3_field::Field>::Packing, MyHash, MyCompress, rand::rngs::SmallRng, 2, DIGEST_ELEMS, SALT>;
+    const CFG: p3_circuit::ops::Poseidon2Config = p3_circuit::ops::Poseidon2Config::KOALA_BEAR_D4_W16;
+
+    fn mats(shape: &MmcsShape) -> Vec<RowMajorMatrix<F>> {
+        let mut rng = crate::core::prng::Rng::new(shape.seed, "mmcs-mats", 0);
+        shape.dims.iter().map(|(h, w)| RowMajorMatrix::new((0..h * w).map(|_| F::from_u64(rng.below(<F as p3_field::PrimeField64>::ORDER_U64))).collect(), *w)).collect()
+    }
+    fn mmcs(shape: &MmcsShape) -> HMmcs {
+        let perm = p3_koala_bear::default_koalabear_poseidon2_16();
+        HMmcs::new(MyHash::new(perm.clone()), MyCompress::new(perm), shape.cap_height, <rand::rngs::SmallRng as rand::SeedableRng>::seed_from_u64(shape.seed))
+    }
+
+    /// (values, sibling words, index bits, cap words, salt elements)
+    pub fn fault_space(shape: &MmcsShape, index: usize) -> (usize, usize, usize, usize, usize) {
+        let m = mmcs(shape);
+        let ms = mats(shape);
+        let max_h = ms.iter().map(|m| m.height()).max().unwrap();
+        let (commit, pd) = m.commit(ms);
+        let o = m.open_batch(index % max_h, &pd);
+        (o.opened_values.iter().map(|v| v.len()).sum(), o.opening_proof.1.len() * DIGEST_ELEMS, log2_ceil_usize(max_h), commit.num_roots() * DIGEST_ELEMS, o.opening_proof.0.iter().map(|v| v.len()).sum())
+    }
+
+    pub fn run_case(shape: &MmcsShape, f: &MFault) -> Result<CaseOut, String> {
+        let perm = p3_koala_bear::default_koalabear_poseidon2_16();
+        let m = mmcs(shape);
+        let ms = mats(shape);
+        let dimensions: Vec<_> = ms.iter().map(|m| m.dimensions()).collect();
+        let max_h = shape.dims.iter().map(|d| d.0).max().unwrap();
+        let log_max = log2_ceil_usize(max_h);
+        let (commit, pd) = m.commit(ms);
+        let index = f.index % max_h;
+        let opening = m.open_batch(index, &pd);
+        let mut values: Vec<Vec<F>> = opening.opened_values.clone();
+        let (mut salts, mut proof): (Vec<Vec<F>>, Vec<[F; DIGEST_ELEMS]>) = (opening.opening_proof.0.iter().map(|s| s.to_vec()).collect(), opening.opening_proof.1.clone());
+        let mut roots: Vec<[F; DIGEST_ELEMS]> = commit.roots().to_vec();
+        let mut idx2 = index;
+        match f.kind.as_str() {
+            "none" => {}
+            "value" => {
+                let mut k = f.pos;
+                for v in values.iter_mut() {
+                    if k < v.len() {
+                        v[k] += F::ONE;
+                        break;
+                    }
+                    k -= v.len();
+                }
+            }
+            "salt" => {
+                let mut k = f.pos;
+                for v in salts.iter_mut() {
+                    if k < v.len() {
+                        v[k] += F::ONE;
+                        break;
+                    }
+                    k -= v.len();
+                }
+            }
+            "sibling" => {
+                if proof.is_empty() {
+                    return Err("no siblings".into());
+                }
+                let (d, w) = (f.pos / DIGEST_ELEMS % proof.len(), f.pos % DIGEST_ELEMS);
+                proof[d][w] += F::ONE;
+            }
+            "index_bit" => {
+                if log_max == 0 {
+                    return Err("no index bits".into());
+                }
+                idx2 = index ^ (1 << (f.pos % log_max));
+            }
+            "cap" => {
+                let (r, w) = (f.pos / DIGEST_ELEMS % roots.len(), f.pos % DIGEST_ELEMS);
+                roots[r][w] += F::ONE;
+            }
+            _ => return Err("unknown fault".into()),
+        }
+        let commit2: <HMmcs as Mmcs<F>>::Commitment = roots.clone().into();
+        let native_proof = (salts.clone(), proof.clone());
+        let native = observe(|| m.verify_batch(&commit2, &dimensions, idx2, BatchOpeningRef::new(&values, &native_proof)).is_ok()).unwrap_or(false);
+        let built = observe(|| {
+            let mut b = CircuitBuilder::<CF>::new();
+            b.enable_poseidon2_perm::<p3_poseidon2_circuit_air::KoalaBearD4Width16, _>(generate_poseidon2_trace::<CF, p3_poseidon2_circuit_air::KoalaBearD4Width16>, perm.clone());
+            b.enable_recompose::<F>(generate_recompose_trace::<F, CF>);
+            let openings: Vec<Vec<_>> = values.iter().map(|o| (0..o.len()).map(|_| b.public_input()).collect()).collect();
+            let salt_t: Vec<Vec<_>> = salts.iter().map(|o| (0..o.len()).map(|_| b.public_input()).collect()).collect();
+            let dirs = b.alloc_public_inputs(log_max, "directions");
+            let caps: Vec<Vec<_>> = (0..roots.len()).map(|_| b.alloc_public_inputs(CFG.rate_ext(), "cap").to_vec()).collect();
+            let ops = verify_batch_circuit::<F, CF>(&mut b, CFG, &caps, &dimensions, &dirs, &openings, Some(&salt_t)).map_err(|e| format!("{e:?}"))?;
+            let c = b.build().map_err(|e| format!("{e:?}"))?;
+            Ok::<_, String>((c, ops))
+        });
+        let (circuit, ops) = match built {
+            Ok(Ok(x)) => x,
+            Ok(Err(e)) => return Ok(CaseOut { native, circuit: Err(format!("build: {e}")), circuit_panicked: false }),
+            Err(p) => return Ok(CaseOut { native, circuit: Err(format!("build panic: {p}")), circuit_panicked: true }),
+        };
+        let d = <CF as BasedVectorSpace<F>>::DIMENSION;
+        let ran = observe(|| {
+            let mut pubs: Vec<CF> = values.iter().flat_map(|v| v.iter().map(|x| CF::from(*x))).collect();
+            pubs.extend(salts.iter().flat_map(|v| v.iter().map(|x| CF::from(*x))));
+            pubs.extend((0..log_max).map(|k| CF::from_bool((idx2 >> k) & 1 == 1)));
+            for r in &roots {
+                for ch in r.chunks(d) {
+                    pubs.push(CF::from_basis_coefficients_slice(ch).unwrap());
+                }
+            }
+            let mut r = circuit.runner();
+            r.set_public_inputs(&pubs).map_err(|e| format!("{e:?}"))?;
+            for (op, dg) in ops.iter().zip(proof.iter()) {
+                let sib: Vec<CF> = dg.chunks(d).map(|ch| CF::from_basis_coefficients_slice(ch).unwrap()).collect();
+                r.set_private_data(*op, perm_private_data(CFG, sib)).map_err(|e| format!("{e:?}"))?;
+            }
+            r.run().map(|_| ()).map_err(|e| format!("{e:?}"))
+        });
+        Ok(match ran {
+            Ok(r) => CaseOut { native, circuit: r, circuit_panicked: false },
+            Err(p) => CaseOut { native, circuit: Err(format!("panic: {p}")), circuit_panicked: true },
+        })
+    }
+}
+
 fn run_case(shape: &MmcsShape, f: &MFault) -> Result<CaseOut, String> {
     match observe(|| match shape.universe.as_str() {
         "U-BB4" => bb4::run_case(shape, f),
         "U-KB4-A4" => kb4a4::run_case(shape, f),
+        "U-KB4-SALT" => kb4salt::run_case(shape, f),
         _ => kb4::run_case(shape, f),
     }) {
         Ok(r) => r,
@@ -524,6 +665,10 @@ fn fault_space(shape: &MmcsShape, index: usize) -> (usize, usize, usize, usize) 
     match shape.universe.as_str() {
         "U-BB4" => bb4::fault_space(shape, index),
         "U-KB4-A4" => kb4a4::fault_space(shape, index),
+        "U-KB4-SALT" => {
+            let x = kb4salt::fault_space(shape, index);
+            (x.0, x.1, x.2, x.3)
+        }
         _ => kb4::fault_space(shape, index),
     }
 }
@@ -556,7 +701,7 @@ fn key_of(f: &MFault, o: &CaseOut) -> String {
 pub fn one_run(ctx: &Ctx, idx: u64, out: &mut RunOut) {
     let mut rng = Rng::new(ctx.seed, "C08", idx);
     foldhash::sim::set_seed(mix(ctx.seed, idx));
-    let uni = ["U-KB4", "U-BB4", "U-KB4-A4"][(idx % 3) as usize];
+    let uni = ["U-KB4", "U-BB4", "U-KB4-A4", "U-KB4-SALT"][(idx % 4) as usize];
     let shape = draw_shape(&mut rng, uni, ctx.tier);
     let max_h = shape.dims.iter().map(|d| d.0).max().unwrap();
     if out.samples.is_empty() {
@@ -605,6 +750,10 @@ pub fn one_run(ctx: &Ctx, idx: u64, out: &mut RunOut) {
     for &index in indices.iter().take(n_idx) {
         let (nv, ns, nb, nc) = fault_space(&shape, index);
         let mut plans: Vec<MFault> = Vec::new();
+        if shape.universe == "U-KB4-SALT" {
+            let nsalt = kb4salt::fault_space(&shape, index).4;
+            plans.extend((0..nsalt).map(|p| MFault { kind: "salt".into(), index, pos: p }));
+        }
         plans.extend((0..nv).map(|p| MFault { kind: "value".into(), index, pos: p }));
         plans.extend((0..ns).map(|p| MFault { kind: "sibling".into(), index, pos: p }));
         plans.extend((0..nb).map(|p| MFault { kind: "index_bit".into(), index, pos: p }));
@@ -693,12 +842,12 @@ pub fn main(ctx: &Ctx) -> i32 {
         runs,
         Spec {
             level: "fault_enumeration",
-            rule: "one run = one seeded batch of 1..5 matrices (heights 1..32/64: equal, mixed powers of two, strictly decreasing; widths from {1,2,3,5,7,8,9,15,16,17,24}; cap height 0..2) committed by the native MerkleTreeMmcs (binary trees over KoalaBear / BabyBear width-16 Poseidon2, and quaternary trees over KoalaBear width-32 Poseidon2 against verify_batch_circuit_arity4, one run in three); honest opening at every index natively and in-circuit; then at 2/6 sampled indices every opened value, every sibling digest word, every index bit and every cap entry word is altered, one at a time; native verify_batch verdict == circuit run verdict. distinct = distinct (universe, #matrices, #distinct heights, cap height, fault kind).",
+            rule: "one run = one seeded batch of 1..5 matrices (heights 1..32/64: equal, mixed powers of two, strictly decreasing; widths from {1,2,3,5,7,8,9,15,16,17,24}; cap height 0..2) committed by the native MerkleTreeMmcs (binary trees over KoalaBear / BabyBear width-16 Poseidon2, and quaternary trees over KoalaBear width-32 Poseidon2 against verify_batch_circuit_arity4, and salted MerkleTreeHidingMmcs binary trees over KoalaBear with one more fault kind (every salt element), one run in four each); honest opening at every index natively and in-circuit; then at 2/6 sampled indices every opened value, every sibling digest word, every index bit and every cap entry word is altered, one at a time; native verify_batch verdict == circuit run verdict. distinct = distinct (universe, #matrices, #distinct heights, cap height, fault kind).",
             exhaustive: true,
             assumptions: vec!["exhaustive over single faults of the sampled openings; dimension vectors and indices sampled".into()],
             components_real: vec!["MerkleTreeMmcs commit/open_batch/verify_batch", "verify_batch_circuit", "add_mmcs_verify / Poseidon2 Merkle-mode executor", "CircuitRunner"],
             components_stub: vec![],
-            not_covered: vec!["hiding/salted MMCS (exercised through the hiding universes of C01/C07)", "arity-4 with BabyBear / extension-field leaves", "extension-field leaves (verify_batch_circuit_from_extension_opened; exercised through FRI commit-phase openings in C01/C07)", "non-power-of-two heights"],
+            not_covered: vec!["arity-4 with BabyBear", "salted arity-4",  "extension-field leaves (verify_batch_circuit_from_extension_opened; exercised through FRI commit-phase openings in C01/C07)", "non-power-of-two heights"],
             extra: json!({}),
         },
     )
